@@ -514,6 +514,7 @@ def do_prescreen(spec, out):
     stalls = []
     t_end = time.time() + float(spec.get("budget_s", 60))
     done = 0
+    progress = open(out + ".progress", "w")
     for fam in spec["families"]:
         if time.time() > t_end:
             break
@@ -523,6 +524,11 @@ def do_prescreen(spec, out):
         worst = 0
         for n in (4, 8, 12, 16, 20, 24, 28, 32, 48, 64):
             s = family_input(fam, n)
+            # which call is running: a call that cannot be interrupted from inside (C code that polls no signals) is
+            # identified by the parent after it had to kill this process
+            progress.seek(0)
+            progress.write("%8d %4d\n" % (fam["id"], n))
+            progress.flush()
             best = None
             for rep in range(2):
                 t0 = time.perf_counter_ns()
@@ -674,11 +680,27 @@ def do_measure(spec, out):
     return 0
 
 
+def do_confirm(spec, out):
+    """One call under a hard CPU limit (RLIMIT_CPU: the kernel kills the process, whatever code is running)."""
+    import resource
+    sys.path.insert(0, spec["repo"])
+    targets = build_targets()
+    fn = make_callable(spec["family"]["target"], targets)
+    s = family_input(spec["family"], spec["n"])
+    lim = int(spec.get("cpu_s", 60))
+    resource.setrlimit(resource.RLIMIT_CPU, (lim, lim + 5))
+    t0 = time.process_time()
+    fn(s)
+    with open(out, "w") as f:
+        json.dump({"cpu_s": time.process_time() - t0, "input": s}, f)
+    return 0
+
+
 def main(argv):
     mode, spec_path, out = argv[1], argv[2], argv[3]
     with open(spec_path) as f:
         spec = json.load(f)
-    if mode in ("harvest", "prescreen"):
+    if mode in ("harvest", "prescreen", "confirm"):
         # a value-driven blow-up (range expansion, repetition) must end in MemoryError, not in the OOM killer
         import resource
         lim = 3 * 1024 ** 3
@@ -692,6 +714,8 @@ def main(argv):
         return do_prescreen(spec, out)
     if mode == "measure":
         return do_measure(spec, out)
+    if mode == "confirm":
+        return do_confirm(spec, out)
     return 2
 
 
